@@ -187,9 +187,8 @@ let h_hist (a : string array) : string =
       (* delete every live root, in handle order *)
       let n = List.length (!st).st_items in
       for i = 0 to n - 1 do
-        let ds = run (dump_state !st) in
-        (* is handle i still a live root? (dump_state lists exactly those) *)
-        if List.exists (fun (j, _) -> int_of_nat j = i) ds then begin
+        (* is handle i still a live root? *)
+        if List.exists (fun j -> int_of_nat j = i) (run (live_roots !st)) then begin
           let (_, st') = run (run_op oracle !st (ODelete (IH (nat_of_int i)))) in st := st'
         end
       done;
